@@ -24,37 +24,6 @@ open CweModel.IR CweModel.Cfg CweModel.C08 List
 
 /-! ### the graph of a program: chroot call sites have at most one outgoing edge -/
 
-theorem nodup_of_nodup_map {α β : Type} (f : α → β) : ∀ {l : List α}, (l.map f).Nodup → l.Nodup
-  | [], _ => nodup_nil
-  | a :: l, h => by
-    rw [map_cons, nodup_cons] at h
-    exact nodup_cons.mpr ⟨fun ha => h.1 (mem_map_of_mem ha), nodup_of_nodup_map f h.2⟩
-
-theorem nodup_map_of_inj {α β : Type} (f : α → β) (hf : ∀ a b, f a = f b → a = b) :
-    ∀ {l : List α}, l.Nodup → (l.map f).Nodup
-  | [], _ => nodup_nil
-  | a :: l, h => by
-    rw [nodup_cons] at h
-    rw [map_cons, nodup_cons]
-    refine ⟨?_, nodup_map_of_inj f hf h.2⟩
-    intro hm
-    obtain ⟨b, hb, hfb⟩ := mem_map.mp hm
-    exact h.1 (hf _ _ hfb ▸ hb)
-
-theorem pairs_nodup {p : Program} (hr : CfgReady p) : (pairs p).Nodup := by
-  unfold pairs
-  rw [Nodup, pairwise_flatMap]
-  constructor
-  · intro s hs
-    exact nodup_map_of_inj _ (fun a b h => (Prod.mk.inj h).1) (nodup_of_nodup_map _ (hr.blkTids s hs))
-  · have hsubs : p.subs.Nodup := nodup_of_nodup_map _ hr.subTids
-    refine Pairwise.imp ?_ hsubs
-    intro s s' hne x hx y hy hxy
-    simp only [mem_map] at hx hy
-    obtain ⟨_, _, rfl⟩ := hx
-    obtain ⟨_, _, rfl⟩ := hy
-    exact hne (Prod.mk.inj hxy).2
-
 theorem length_filter_flatMap_le {α β : Type} (f : α → List β) (q : β → Bool) (a0 : α) :
     ∀ {l : List α}, l.Nodup → (∀ a ∈ l, a ≠ a0 → (f a).filter q = []) →
       ((l.flatMap f).filter q).length ≤ ((f a0).filter q).length
